@@ -306,3 +306,99 @@ theorem winv_reachable (cfg : Cfg) (ops : List Op) : WInv cfg (run cfg ops).now 
   | cons o os ih => intro s hs h; exact ih _ (stepS_inv cfg s o hs) (stepS_winv cfg s o hs h)
 
 end TR.Circuit
+
+namespace TR.Circuit
+
+/-! ## what `metrics()` reports
+
+`Circuit::metrics` reads the count-based aggregates, or — time-based — `time_based_stats()` over `call_records` AS THEY ARE: it does
+not prune first (`cleanup_old_records` runs only inside `record_*` / `evaluate_window`). So for a time-based window the snapshot
+counts the documented window plus every record that has expired since the last recording and has not been popped yet. -/
+
+/-- the counts `(total, failures, successes, slow)` of a list of outcomes -/
+def counts (w : List Rec) : Nat × Nat × Nat × Nat := (w.length, countFail w, w.length - countFail w, countSlow w)
+
+/-- count-based: the snapshot is the counts over the documented window (the last `sliding_window_size` outcomes) -/
+theorem stats_count_window (cfg : Cfg) (now : Nat) (c : Circuit) (hcb : cfg.countBased = true) (hc : CInv cfg c)
+    (hw : WInv cfg now c) : stats cfg c = counts (lastN (max cfg.size 1) c.hist) := by
+  have h1 := hc.failN; have h2 := hc.slowN; have h3 := hc.totalN; have h4 := hc.succN
+  rw [← hw.count hcb]
+  unfold stats counts
+  simp only [hcb, if_true, h1, h2, h3]
+  have : c.succN = c.cwin.length - countFail c.cwin := by omega
+  rw [this]
+
+/-- time-based: the records kept are the documented window preceded by records that have expired and were not pruned yet;
+the snapshot counts all of them -/
+theorem stats_time_window (cfg : Cfg) (now : Nat) (c : Circuit) (hcb : cfg.countBased = false) (hw : WInv cfg now c) :
+    ∃ stale, c.recs = stale ++ c.hist.filter (fun r => decide (now - r.t ≤ cfg.windowMs)) ∧
+      (∀ r ∈ stale, now - r.t > cfg.windowMs) ∧ stats cfg c = counts c.recs := by
+  refine ⟨c.recs.takeWhile (fun r => decide (now - r.t > cfg.windowMs)), ?_, ?_, ?_⟩
+  · rw [← cleanup_eq_filter cfg now c hcb hw]
+    exact (List.takeWhile_append_dropWhile (p := fun r => decide (now - r.t > cfg.windowMs)) (l := c.recs)).symm
+  · intro r hr
+    have hall := List.all_takeWhile (l := c.recs) (p := fun r => decide (now - r.t > cfg.windowMs))
+    have := List.all_eq_true.mp hall r hr
+    simpa using this
+  · unfold stats counts
+    simp [hcb]
+
+/-- … so it is exactly the documented window whenever no kept record has expired -/
+theorem stats_time_fresh (cfg : Cfg) (now : Nat) (c : Circuit) (hcb : cfg.countBased = false) (hw : WInv cfg now c)
+    (hy : ∀ r ∈ c.recs, now - r.t ≤ cfg.windowMs) :
+    stats cfg c = counts (c.hist.filter (fun r => decide (now - r.t ≤ cfg.windowMs))) := by
+  obtain ⟨stale, h1, h2, h3⟩ := stats_time_window cfg now c hcb hw
+  have hst : stale = [] := by
+    cases stale with
+    | nil => rfl
+    | cons x tl =>
+      exfalso
+      have hx := h2 x (by simp)
+      have := hy x (by rw [h1]; simp)
+      omega
+  rw [h3, h1, hst, List.nil_append]
+
+theorem transitionTo_recs (c : Circuit) (s : St) (now : Nat) :
+    (transitionTo c s now).1.recs = c.recs ∨ (transitionTo c s now).1.recs = [] := by
+  unfold transitionTo
+  split
+  · exact Or.inl rfl
+  · exact Or.inr rfl
+
+/-- right after an outcome was recorded every kept record is young: `record_*` prunes before it pushes -/
+theorem recs_young_after_record (cfg : Cfg) (now : Nat) (c : Circuit) (fail : Bool) (dur : Nat) (own : Bool)
+    (hcb : cfg.countBased = false) (hw : WInv cfg now c) :
+    ∀ r ∈ (record cfg c fail dur now own).1.recs, now - r.t ≤ cfg.windowMs := by
+  have hy := cleanup_all_young cfg now c hcb hw
+  have hp : ∀ r ∈ (pushOutcome cfg c { t := now, fail := fail, slow := isSlow cfg dur } now).recs, now - r.t ≤ cfg.windowMs := by
+    unfold pushOutcome
+    simp only [hcb, Bool.false_eq_true, if_false]
+    intro r hr
+    rcases List.mem_append.mp hr with hr | hr
+    · exact hy r hr
+    · simp at hr; rw [hr]; simp
+  have htr : ∀ (c2 : Circuit) (s : St), (∀ r ∈ c2.recs, now - r.t ≤ cfg.windowMs) →
+      ∀ r ∈ (transitionTo c2 s now).1.recs, now - r.t ≤ cfg.windowMs := by
+    intro c2 s h2 r hr
+    rcases transitionTo_recs c2 s now with h | h
+    · rw [h] at hr; exact h2 r hr
+    · rw [h] at hr; cases hr
+  unfold record
+  simp only
+  split
+  · split
+    · exact htr _ _ hp
+    · split
+      · exact htr _ _ hp
+      · exact hp
+  · unfold evaluate evalOn
+    simp only [hcb, Bool.false_eq_true, if_false]
+    have hcl : ∀ r ∈ (cleanup cfg (pushOutcome cfg c { t := now, fail := fail, slow := isSlow cfg dur } now) now).recs,
+        now - r.t ≤ cfg.windowMs := by
+      intro r hr
+      exact hp r ((List.dropWhile_sublist _).subset hr)
+    split
+    · exact htr _ _ hcl
+    · exact hcl
+
+end TR.Circuit
